@@ -724,7 +724,7 @@ def rule_S(ctx):
                 if miss2:
                     found.setdefault('register2', ('addFeature', 'registering a second feature leaves both features in all their cells',
                                                    dict(shape, tracks=[lname, other[0]], **{'cells without their feature': miss2})))
-        except (IndexError, KeyError, TypeError, AttributeError, ZeroDivisionError, orders.Raised) as ex:
+        except orders.PROGRAM_ERRORS as ex:
             found.setdefault('fails', ('request', 'registration and queries do not fail inside the extent', dict(shape, exception='%s: %s' % (type(ex).__name__, ex))))
     # special geometries on a 3 x 3 grid of unit cells: registered, then found again by a point query taken on them
     try:
@@ -752,7 +752,7 @@ def rule_S(ctx):
                     break
     except orders.Unsupported as ex:
         raise shape_error('SpatialIndex.addFeature / request not interpretable: %s' % ex, f0.loc())
-    except (IndexError, KeyError, TypeError, AttributeError, ZeroDivisionError, orders.Raised) as ex:
+    except orders.PROGRAM_ERRORS as ex:
         found.setdefault('fails', ('addFeature', 'registration and queries do not fail inside the extent', {'feature': 'special geometries', 'exception': '%s: %s' % (type(ex).__name__, ex)}))
     # sub-millimetre scale (cells of 0.1 mm, positions that are the repository's own ENUCoords, whose equality has a 0.1 mm tolerance):
     # a track whose fixes are 0.07 mm apart is registered in every cell it crosses, and found again
@@ -772,7 +772,7 @@ def rule_S(ctx):
                                                     {'grid (columns, rows)': [CS, LS], 'cell size': sc, 'vertices': [[c_.fields['E'], c_.fields['N']] for c_ in coords], 'cells without the feature': miss}))
     except orders.Unsupported as ex:
         raise shape_error('SpatialIndex.addFeature not interpretable: %s' % ex, f0.loc())
-    except (IndexError, KeyError, TypeError, AttributeError, ZeroDivisionError, orders.Raised) as ex:
+    except orders.PROGRAM_ERRORS as ex:
         found.setdefault('fails', ('addFeature', 'registration does not fail inside the extent', {'scale': 'cells of 0.1 mm', 'exception': '%s: %s' % (type(ex).__name__, ex)}))
     for key, (method, desc, wit) in sorted(found.items()):
         ctx.violation('C08.S', _m(ctx, method) if method.startswith('__') else ctx.prog.func(SI + '.' + method), desc, wit, key=key)
@@ -834,7 +834,7 @@ def rule_N(ctx):
                     got = ix.call('request', P(px, py))
                 except orders.Unsupported as ex:
                     raise shape_error('SpatialIndex.request not interpretable: %s' % ex, f.loc())
-                except (IndexError, KeyError, TypeError, AttributeError, ZeroDivisionError, orders.Raised) as ex:
+                except orders.PROGRAM_ERRORS as ex:
                     got = '%s: %s' % (type(ex).__name__, str(ex)[:120])
                 if not isinstance(got, (list, set, tuple)) or k not in got:
                     found.setdefault(label, ('a point query taken on an edge of the network returns that edge (its position in the network)',
@@ -853,7 +853,7 @@ def rule_N(ctx):
                 net.call('createSpatialIndex', res, 0.05, False)
             except orders.Unsupported as ex:
                 raise shape_error('Network.createSpatialIndex not interpretable: %s' % ex, f.loc())
-            except (IndexError, KeyError, TypeError, AttributeError, ZeroDivisionError, orders.Raised) as ex:
+            except orders.PROGRAM_ERRORS as ex:
                 found.setdefault('fails', ('the index of a network can be built', dict(case, exception='%s: %s' % (type(ex).__name__, str(ex)[:160]))))
                 continue
             for k, g in enumerate(geoms):
@@ -865,7 +865,7 @@ def rule_N(ctx):
                 add(net, nodes, node, k, late)
             except orders.Unsupported as ex:
                 raise shape_error('Network.addEdge not interpretable: %s' % ex, f.loc())
-            except (IndexError, KeyError, TypeError, AttributeError, ZeroDivisionError, orders.Raised) as ex:
+            except orders.PROGRAM_ERRORS as ex:
                 found.setdefault('fails', ('an edge can be added to an indexed network', dict(case, exception='%s: %s' % (type(ex).__name__, str(ex)[:160]))))
                 continue
             check(net, k, late, 'late', dict(case, **{'edge added after the index was built': late}))
